@@ -3,7 +3,7 @@
 import json, os
 HERE = os.path.dirname(os.path.dirname(os.path.abspath(__file__)))
 ALL = ["C%02d" % i for i in range(1, 19)]
-GEN = (" Second tie (regenerated on every run): translate/py2coq.py translates tcp_signatures_match, calculate_window_multiplier, find_tcp_match, the "
+GEN = (" Second tie (regenerated on every run): translate/py2coq.py translates the public wrappers fingerprint_tcp / fingerprint_mtu / fingerprint_http (gate, direction -> section, result), tcp_signatures_match, calculate_window_multiplier, find_tcp_match, the "
        "TCPResult distance, round_frequency, guess_distance, should_fingerprint, the three valid_for_*_fingerprint gates, MTUPacketSignature.from_mss, impersonate/mtu.py's option-list rewrite, "
        "mtu_signatures_match, find_mtu_match, find_http_match, http_signatures_match (with the two header_names sets), headers_match, HTTP.software, the dishonest flag, TCPOptions.parse (the option walker) and - translate/lay2coq.py - the whole extraction layer (IP._from_ipv4/_from_ipv6, TCP.from_packet, Packet.from_packet, TCPPacketSignature.from_packet over Scapy's fields) from /repo's CURRENT source to Gallina (fail-closed "
        "subset incl. for/while loops, early return, optional values), one generated file per group of functions (match / select / uptime / mtu / options / http / layers), "
